@@ -196,7 +196,7 @@ def sweeps(tier, rng):
     from fontTools.cu2qu import cu2qu
     from fontTools.cu2qu.errors import ApproxNotFoundError
     from fontTools.qu2cu import qu2cu
-    n = N(tier, 250, 5000) if tier != "search" else 1500
+    n = N(tier, 250, 2500) if tier != "search" else 1500          # thorough: ~15 min (5000 took over 25 min on a busy machine)
     def run_curves():
         for i in range(n):
             k = rng.randint(1, 4); fam = rng.below(4)
